@@ -775,6 +775,32 @@ func (m *rM) solve(goal Term, s *rSub, cutB int, k rK) rOut {
 			return rOut{kind: rFail}
 		}
 		return k(s2)
+	case f == rAtomPhrase && (n == 2 || n == 3):
+		var rest Term = xEmptyList
+		if n == 3 {
+			rest = arg(2)
+		}
+		body := rDeref(arg(0), s)
+		if _, isVar := body.(Variable); isVar {
+			return rInstErr()
+		}
+		switch body.(type) {
+		case Atom, Compound:
+		default:
+			return rTypeErr(rAtomCallable, body)
+		}
+		// the list arguments must be lists or partial lists
+		if _, ok, partial := rListElems(arg(1), s); !ok && !partial {
+			return rTypeErr(xList, rResolve(arg(1), s))
+		}
+		if _, ok, partial := rListElems(rest, s); !ok && !partial {
+			return rTypeErr(xList, rResolve(rest, s))
+		}
+		goal, ok := rDCGBody(rResolve(body, s), arg(1), rest)
+		if !ok {
+			return rTypeErr(rAtomCallable, rResolve(body, s))
+		}
+		return m.callGoal(goal, s, k)
 	case f == rAtomRetractall && n == 1:
 		return m.retractall(arg(0), s, k)
 	case f == rAtomAbolish && n == 1:
